@@ -161,7 +161,8 @@ OPTION_SETS = [
     ["--minus-style", "raw", "--plus-style", "raw"], ["--minus-emph-style", "omit"], ["--syntax-theme", "none"], ["--default-language", "rs"], ["--default-language", "nonexistent"],
     ["--file-modified-label", "", "--file-added-label", "", "--file-renamed-label", "", "--right-arrow", ""], ["--hunk-label", "日本"],
     ["--blame-format", "{author:<5} {commit:>3} {timestamp:^9}"], ["--blame-format", "{author:<0}"], ["--blame-timestamp-output-format", "%Y"], ["--blame-separator-format", "{n:^4}"],
-    ["--blame-code-style", "syntax"], ["--file-transformation", "s/a/b/"], ["--line-numbers-minus-style", "omit"], ["--line-numbers", "--line-numbers-left-format", "{nm:~>4}{np:_<4}"],
+    ["--blame-separator-format", "{n:^4_every-0}"], ["--blame-separator-format", "│{n:^4_every-3}│"], ["--blame-separator-format", "{n:every-0}"],
+    ["--blame-separator-format", "{n:_block}"], ["--blame-code-style", "syntax"], ["--file-transformation", "s/a/b/"], ["--line-numbers-minus-style", "omit"], ["--line-numbers", "--line-numbers-left-format", "{nm:~>4}{np:_<4}"],
     ["--merge-conflict-begin-symbol", "日", "--merge-conflict-end-symbol", ""], ["--inline-hint-style", "red"], ["--wrap-left-symbol", "日", "--side-by-side", "--width", "20"],
     ["--wrap-right-percent", "99", "--side-by-side", "--width", "24"], ["--paging", "never", "--no-gitconfig"], ["--features", "nonexistent"], ["--diff-stat-align-width", "0"],
     ["--hyperlinks", "--hyperlinks-file-link-format", "x{path}{line}"], ["--hyperlinks", "--hyperlinks-commit-link-format", "{commit}"],
